@@ -135,6 +135,14 @@ class SymEnumerate(SV):
         self.seq, self.start = seq, start
 
 
+class SymZip(SV):
+    """zip of symbolic sequences (iterated in lock step)"""
+    __slots__ = ('seqs',)
+
+    def __init__(self, seqs):
+        self.seqs = seqs
+
+
 class SymStar(SV):
     """*args of symbolic length at a call site (only trusted models accept it)"""
     __slots__ = ('seq',)
